@@ -31,23 +31,39 @@ Definition dflt (x : option str) : str := match x with Some v => v | None => [] 
 Definition truthy (x : option str) : bool := match x with Some v => nonempty v | None => false end.
 
 (* ------------------------------------------------------------------ 1. JSON views, records *)
+(* JSON value of a facet member ("folder" / "file") of a drive item.  What the client looks at:
+   KEY PRESENCE decides (`"folder" in item`, `"file" in item`) — so {} , {"childCount": n}, null and even a
+   non-object all count as "has the facet"; only file.mimeType is read from inside, and only when the value is
+   an object *)
+Inductive facet :=
+| FcNull                                        (* "folder": null *)
+| FcObj (mime : option str) (other_members : bool)   (* {} = FcObj None false ; {"hashes": ..} = FcObj None true *)
+| FcOther.                                      (* true, 5, "x", [..] *)
+
 Record fitem := {
   i_name : option str;        (* "name" *)
   i_id : option str;          (* "id" *)
   i_web : option str;         (* "webUrl" *)
   i_dl : option str;          (* "@microsoft.graph.downloadUrl" *)
   i_size : option Z;          (* "size" *)
-  i_mime : option str;        (* file.mimeType (None also when "file" is not an object) *)
+  i_facet : facet;            (* value of the "file" member when this record describes a File node *)
   i_modified : option str;    (* "lastModifiedDateTime" *)
   i_created : option str;     (* "createdDateTime" *)
   i_fields : option (list (str * str))  (* listItem.fields (key, canonical value) or None if absent/not objects *)
 }.
 
+(* an element of "value": a JSON object seen through its members, or something else *)
+Record ditem := {
+  d_folder : option facet;    (* None = no "folder" key *)
+  d_file : option facet;      (* None = no "file" key *)
+  d_f : fitem                 (* the other members (name, id, ... are shared by files and folders) *)
+}.
 Inductive item :=
-| IFile (f : fitem)                              (* object with "file" and without "folder" *)
-| IFolder (name : option str) (id : option str)  (* object with "folder" *)
-| IJunkDict                                      (* object with neither key *)
+| IDict (d : ditem)
 | INonDict.                                      (* array element that is not an object *)
+
+Definition is_folder (d : ditem) : bool := match d_folder d with Some _ => true | None => false end.  (* "folder" in item *)
+Definition is_file (d : ditem) : bool := match d_file d with Some _ => true | None => false end.      (* "file" in item *)
 
 Record fmeta := {
   m_name : str; m_id : str; m_web : str; m_dl : option str; m_size : option Z; m_mime : option str;
@@ -231,19 +247,29 @@ Definition custom_of (E : env) (f : option (list (str * str))) : option (list (s
   end.
 
 (* _parse_file_item *)
-Definition parse_file_item (E : env) (path : str) (f : fitem) : fmeta :=
+Definition mime_of (fc : option facet) : option str :=
+  match fc with Some (FcObj m _) => m | _ => None end.   (* file_info.get("mimeType") if isinstance(file_info, dict) *)
+
+Definition parse_file_item (E : env) (path : str) (d : ditem) : fmeta :=
+  let f := d_f d in
   {| m_name := dflt (i_name f); m_id := dflt (i_id f); m_web := dflt (i_web f); m_dl := i_dl f;
-     m_size := i_size f; m_mime := i_mime f; m_modified := i_modified f; m_created := i_created f;
+     m_size := i_size f; m_mime := mime_of (d_file d); m_modified := i_modified f; m_created := i_created f;
      m_parent := if nonempty path then Some path else None;
      m_custom := custom_of E (i_fields f) |}.
 
 (* the loop body of _list_items_paginated over one page *)
 Definition files_of (E : env) (path : str) (items : list item) : list fmeta :=
-  flat_map (fun it => match it with IFile f => [parse_file_item E path f] | _ => [] end) items.
+  flat_map (fun it => match it with
+                      | IDict d => if is_folder d then [] else if is_file d then [parse_file_item E path d] else []
+                      | INonDict => []
+                      end) items.
 
 (* the loop body of _get_folders_from_url over one page *)
 Definition folders_of (items : list item) : list (option str * option str) :=
-  flat_map (fun it => match it with IFolder n i => [(n, i)] | _ => [] end) items.
+  flat_map (fun it => match it with
+                      | IDict d => if is_folder d then [(i_name (d_f d), i_id (d_f d))] else []
+                      | INonDict => []
+                      end) items.
 
 (* _list_items_paginated: `while current_url:` *)
 Fixpoint list_items_paginated (E : env) (fuel : nat) (cur : option str) (path : str) : prog (list fmeta) :=
@@ -479,15 +505,20 @@ Definition list_files_filtered (E : env) (fuel : nat) (f : ffilter) (drive : opt
 (* ------------------------------------------------------------------ 5. simulated library and server *)
 Inductive node :=
 | File (f : fitem)
-| Folder (name : option str) (id : option str) (ch : list node)
+| Folder (name : option str) (id : option str) (fc : facet * option facet) (ch : list node)
+    (* fc = (value of the "folder" member, value of an additional "file" member if any) *)
 | JunkDict
 | NonDict.
 
+Definition named (nm i : option str) : fitem :=
+  {| i_name := nm; i_id := i; i_web := None; i_dl := None; i_size := None; i_facet := FcNull; i_modified := None;
+     i_created := None; i_fields := None |}.
+
 Definition item_of (n : node) : item :=
   match n with
-  | File f => IFile f
-  | Folder nm i _ => IFolder nm i
-  | JunkDict => IJunkDict
+  | File f => IDict {| d_folder := None; d_file := Some (i_facet f); d_f := f |}
+  | Folder nm i fc _ => IDict {| d_folder := Some (fst fc); d_file := snd fc; d_f := named nm i |}
+  | JunkDict => IDict {| d_folder := None; d_file := None; d_f := named (Some (s "pkg")) (Some (s "junk")) |}
   | NonDict => INonDict
   end.
 
@@ -517,7 +548,7 @@ Section Server.
 
   Fixpoint node_entries (n : node) : list (str * obj) :=
     match n with
-    | Folder _ i ch => folder_entries i ch ++ flat_map node_entries ch
+    | Folder _ i _ ch => folder_entries i ch ++ flat_map node_entries ch
     | _ => []
     end.
 
@@ -531,7 +562,7 @@ Section Server.
   (* items addressable by path (root:/a/b): folders and files that have a name *)
   Fixpoint node_path_entries (path : str) (n : node) : list (str * obj) :=
     match n with
-    | Folder (Some nm) i ch =>
+    | Folder (Some nm) i _ ch =>
         let p := join_path path nm in
         (path_url E site drive p, item_obj i true) :: flat_map (node_path_entries p) ch
     | File f =>
@@ -574,7 +605,7 @@ Definition server_table (E : env) (site : str) (drive : option str) (P : paging)
    the path of its parent *)
 Fixpoint spec_node (E : env) (path : str) (n : node) : list fmeta :=
   match n with
-  | Folder nm _ ch =>
+  | Folder nm _ _ ch =>
       let p := join_path path (dflt nm) in
       files_of E p (map item_of ch) ++ flat_map (spec_node E p) ch
   | _ => []
@@ -586,7 +617,7 @@ Definition spec_files (E : env) (path : str) (ch : list node) : list fmeta :=
 Fixpoint path_folders (E : env) (site : str) (drive : option str) (path : str) (n : node)
   : list (str * (option str * list node)) :=
   match n with
-  | Folder (Some nm) i ch =>
+  | Folder (Some nm) i _ ch =>
       let p := join_path path nm in
       (path_url E site drive p, (i, ch)) :: flat_map (path_folders E site drive p) ch
   | _ => []
@@ -610,14 +641,14 @@ Definition spec_target (E : env) (site : str) (drive : option str) (T : list nod
 (* well-formedness of the simulated library/server (boolean) *)
 Fixpoint ids_ok (n : node) : bool :=
   match n with
-  | Folder _ i ch => truthy i && forallb ids_ok ch
+  | Folder _ i _ ch => truthy i && forallb ids_ok ch
   | _ => true
   end.
 
 Definition cuts_ok (c : list (nat * str)) : bool := forallb (fun x => nonempty (snd x)) c.
 Fixpoint links_ok (P : paging) (n : node) : bool :=
   match n with
-  | Folder _ i ch => cuts_ok (P i) && forallb (links_ok P) ch
+  | Folder _ i _ ch => cuts_ok (P i) && forallb (links_ok P) ch
   | _ => true
   end.
 
@@ -637,7 +668,7 @@ Definition server_wf (E : env) (site : str) (drive : option str) (P : paging) (T
 (* fuel that suffices for walking a folder *)
 Fixpoint need_node (P : paging) (n : node) : nat :=
   match n with
-  | Folder _ i ch => 2 + List.length (P i) + list_sum (map (need_node P) ch)
+  | Folder _ i _ ch => 2 + List.length (P i) + list_sum (map (need_node P) ch)
   | _ => 0
   end.
 Definition need (P : paging) (oid : option str) (ch : list node) : nat :=
